@@ -70,6 +70,9 @@ Qed.
 Lemma uat_here' w w' x Y : w = N.of_nat w' -> x < 256 ^ w -> uat w (be_bytes w' x ++ Y) 0 = Ok x.
 Proof. intros -> H. apply uat_here, H. Qed.
 
+Lemma uat_here_nil w w' x : w = N.of_nat w' -> x < 256 ^ w -> uat w (be_bytes w' x) 0 = Ok x.
+Proof. intros Hw Hx. rewrite <- (app_nil_r (be_bytes w' x)). apply uat_here'; assumption. Qed.
+
 Ltac klen X :=
   match X with
   | be_bytes ?n _ => constr:(N.of_nat n)
@@ -82,6 +85,9 @@ Ltac seglen := first [apply blen_be | apply blen_zeros | apply blen_fit | eassum
 (* evaluate the slice primitives at literal offsets on right-nested concatenations *)
 Ltac seg_step :=
   match goal with
+  | |- context [uat ?w (be_bytes ?n ?x) 0] =>
+    let p := eval vm_compute in (256 ^ w) in
+    rewrite (uat_here_nil w n x eq_refl) by (change (256 ^ w) with p; lia)
   | |- context [uat ?w (?X ++ ?Y) ?a] =>
     let k := klen X in let k' := eval vm_compute in k in
     let lt := eval vm_compute in (N.ltb a k') in
